@@ -3,6 +3,11 @@ mod gen;
 mod harness;
 mod mval;
 mod rng;
+mod model;
+mod opgen;
+mod ops;
+mod scen_batch;
+mod scen_chain;
 mod scen_corrupt;
 mod shrink;
 
@@ -24,6 +29,8 @@ fn usage() -> i32 {
 fn inner(scen: &str, o: &Opts) -> i32 {
     match scen {
         "corrupt" => harness::run_inner(scen_corrupt::Corrupt, o),
+        "batch" => harness::run_inner(scen_batch::Batch, o),
+        "chain" => harness::run_inner(scen_chain::Chain, o),
         _ => usage(),
     }
 }
@@ -31,6 +38,8 @@ fn inner(scen: &str, o: &Opts) -> i32 {
 fn outer(scen: &str, o: &Opts, raw: &[String]) -> i32 {
     match scen {
         "corrupt" => harness::run_outer(scen_corrupt::Corrupt, scen, o, raw),
+        "batch" => harness::run_outer(scen_batch::Batch, scen, o, raw),
+        "chain" => harness::run_outer(scen_chain::Chain, scen, o, raw),
         _ => usage(),
     }
 }
@@ -52,6 +61,8 @@ fn replay_file(path: &str) -> i32 {
     };
     match j["scenario"].as_str().unwrap_or("") {
         "corrupt" => harness::replay(&scen_corrupt::Corrupt, &j),
+        "batch" => harness::replay(&scen_batch::Batch, &j),
+        "chain" => harness::replay(&scen_chain::Chain, &j),
         s => {
             eprintln!("HARNESS-ERROR: unknown scenario {s:?} in {path}");
             2
